@@ -580,7 +580,7 @@ func (e *Expression) getRefAndFieldForCollection(collection system.Collection, t
 func (e *Expression) unwrapOneof(obj proto.Message) proto.Message {
 	message := obj.ProtoReflect()
 	descriptor := message.Descriptor()
-	if name := string(descriptor.Name()); !(strings.HasSuffix(name, "ValueX") || name == "ContainedResource") {
+	if name := string(descriptor.Name()); !(strings.HasSuffix(name, "ValueX") || name == "ContainedResource" || isChoiceWrapper(descriptor)) {
 		return obj
 	}
 	oneofsNum := descriptor.Oneofs().Len()
@@ -719,4 +719,12 @@ func intValueFromInt(msg protoreflect.Message, val intable) (fhir.Base, error) {
 		return container.Interface(), nil
 	}
 	return nil, nil
+}
+
+// isChoiceWrapper reports whether the descriptor is a FHIR choice-type wrapper
+// (e.g. Patient.deceased[x]): google/fhir models every choice type as a message
+// whose only oneof is named "choice", whatever the element is called.
+func isChoiceWrapper(descriptor protoreflect.MessageDescriptor) bool {
+	oneofs := descriptor.Oneofs()
+	return oneofs.Len() == 1 && oneofs.Get(0).Name() == "choice"
 }
